@@ -21,8 +21,28 @@ ALPHA = ['{', '}', '[', ']', '$', '$$', '\\', '\\begin{xenv}', '\\end{yenv}',
          '\\item', '%', ' ', '  ', 'a', 'word', '\\ghost', '\\ghost{z}', '\\[',
          '\\)', '\\begin{verbatim}', '\\end{itemize}', '\\end{center}', '\t',
          '\\%', '\\\\', 'é', '\\end{verbatim}', '\\end{lstlisting}', '\\end{equation}',
-         '\\end{document}', '\\end{Verbatim}', '\\begin{equation}', '\\]', '\\end']
+         '\\end{document}', '\\end{Verbatim}', '\\begin{equation}', '\\]', '\\end',
+         # literals that also occur outside the comment in some contexts
+         '\\keep{1}', '\\keep', '\\begin{center}', '\\outer{p ']
 GHOSTS = ['ghost', 'xenv', 'yenv', 'verbatim', 'end', 'lstlisting', 'document']
+# every form of search (find_all / count / find / attribute access), by name,
+# by list of names and by full expression, must be blind to the payload
+QUERIES = GHOSTS + ['keep', 'outer', 'center', 'item', 'equation', 'begin',
+                    '\\ghost{z}', '\\keep{1}', '\\keep{2}', '\\begin{xenv}',
+                    '\\begin{center}', '\\begin{verbatim}', '\\begin{equation}',
+                    '\\outer{p ', ['ghost', 'keep'], ['xenv', 'yenv', 'end']]
+GHOST_QUERIES = GHOSTS + ['\\ghost{z}', '\\begin{xenv}', '\\begin{verbatim}',
+                          ['xenv', 'yenv', 'end']]
+
+
+def search_profile(soup):
+    out = []
+    for q in QUERIES:
+        row = [len(soup.find_all(q)), soup.count(q), soup.find(q) is None]
+        if isinstance(q, str) and q.isalpha():
+            row.append(getattr(soup, q) is None)
+        out.append(row)
+    return out
 CONTEXTS = {
     'top': ('intro \\keep{1} ', 'outro \\keep{2}'),
     'top-bare': ('', ''),
@@ -99,7 +119,10 @@ class C10(Prop):
     rule = ('cases: 22 contexts x k in 0..4 backslashes x pairs of payloads '
             'over a hostile alphabet (braces, brackets, dollars, backslashes, '
             '\\begin/\\end/\\item, %, commands), closed by a line break or (top '
-            'level) by end of input. non-trivial = payload contains at least '
+            'level) by end of input; every form of search (find_all, count, '
+            'find, attribute access; by name, by list of names, by full '
+            'expression) must give the same answer for every payload and '
+            'nothing for names that occur in the payload only. non-trivial = payload contains at least '
             'one structural character; distinct = by content')
     assumptions = (
         'for odd k the reference is the same document with \\& instead of \\%',
@@ -139,7 +162,7 @@ class C10(Prop):
         return self.check_escaped(p, ctx)
 
     def check_comment(self, p, ctx):
-        shapes = []
+        shapes, profiles = [], []
         for pay in (p['p1'], p['p2'], 'Z'):
             src = doc(p['ctx'], p['k'], pay, p['eof'])
             soup = common.parse(src)      # a comment can never cause an error
@@ -154,11 +177,25 @@ class C10(Prop):
                 if soup.find_all(g):
                     return [fail('comment-searchable', 'find_all(%r) finds a node inside the comment of %s'
                                  % (g, short(repr(src), 120)))]
-            if len(soup.find_all('keep')) != src.count('\\keep'):
+            body = src.replace('%' + pay, '%', 1)
+            if len(soup.find_all('keep')) != body.count('\\keep'):
                 return [fail('comment-structure', 'commands around the comment were lost in %s'
                              % short(repr(src), 120))]
+            prof = search_profile(soup)
+            for q, row in zip(QUERIES, prof):
+                if q in GHOST_QUERIES and (row[0] or row[1] or not all(row[2:])):
+                    return [fail('comment-searchable', 'search %r (find_all, count, find[, attribute]) = %r '
+                                 'finds something that only occurs in the comment of %s'
+                                 % (q, row, short(repr(src), 120)))]
+            profiles.append(prof)
             shapes.append(abstract(shape(soup)))
         ctx.count('comment_cases')
+        for i in (0, 1):
+            if profiles[i] != profiles[2]:
+                j = [a != b for a, b in zip(profiles[i], profiles[2])].index(True)
+                return [fail('payload-dependent', 'search %r gives %r with payload %r but %r with payload '
+                             '\'Z\' in context %s' % (QUERIES[j], profiles[i][j], (p['p1'], p['p2'])[i],
+                                                      profiles[2][j], p['ctx']))]
         d = tree2ast.first_diff(shapes[0], shapes[1]) or tree2ast.first_diff(shapes[0], shapes[2])
         if d:
             return [fail('payload-dependent', 'tree shape depends on the comment payload (%r vs %r) at %s'
